@@ -252,13 +252,14 @@ type Step struct {
 	Nz bool   `json:"nz"`
 	Z  bool   `json:"z"`
 	// group
-	X   string `json:"x"`
-	Na  string `json:"na"`
-	Ng  string `json:"ng"`
-	Odd bool   `json:"odd"`
-	Sg  int64  `json:"sg"`
-	F   FormJ  `json:"f"`
-	Inf bool   `json:"inf"`
+	X     string `json:"x"`
+	Na    string `json:"na"`
+	Ng    string `json:"ng"`
+	Odd   bool   `json:"odd"`
+	Sg    int64  `json:"sg"`
+	F     FormJ  `json:"f"`
+	Inf   bool   `json:"inf"`
+	Reuse bool   `json:"reuse"`
 }
 
 type Line struct {
